@@ -202,3 +202,15 @@ def enumerations(tier, shard, nshards):
 
     yield ("orientation table: 4 link orientations x 2 declaration ends x all 8 two-step paths on a 2-node graph; "
            "4 self-link orientations x all two-step self paths", gen(), True)
+
+    def long_walks():
+        # walks far longer than any recursion limit: 1 500 and 3 001 steps around a two-segment cycle, and the same with one bad step
+        text = "S\ta\tACG\nS\tb\tTT\nS\tc\tG\nL\ta\t+\tb\t+\t0M\nL\tb\t+\ta\t+\t0M\nL\tb\t+\tc\t-\t0M\n"
+        good = ">a>b" * 750
+        bad = ">a>b" * 400 + ">b" + ">a>b" * 349
+        longer = ">a>b" * 1500 + "<c"
+        if shard == 0:
+            yield {"gfa": text, "paths": [good, bad, longer, ">a>b"], "fasta": False, "via": "api"}
+            yield {"gfa": text, "paths": [longer, good], "fasta": True, "via": "cli"}
+
+    yield ("walks of 1 500 and 3 001 steps around a cycle (and one with a bad step in the middle)", long_walks(), True)
